@@ -545,4 +545,36 @@ mod verif_c11_recver {
         }
         core::mem::forget(a);
     }
+
+    // ---- C16: a STREAM frame that makes buffered data readable wakes the sleeping reader -----------------------------
+    /// readability of the buffer after the frame has been stored: one arbitrary but FIXED answer per execution (it
+    /// depends on the segment layout, which the RecvBuf model abstracts)
+    static mut VP_READABLE_AFTER: bool = false;
+    fn stub_is_readable_fixed(_b: &crate::recv::rcvbuf::RecvBuf) -> bool {
+        unsafe { VP_READABLE_AFTER }
+    }
+
+    /// `Recv::recv` / `SizeKnown::recv`: whenever an accepted frame leaves the buffer readable -- whether or not it moved
+    /// the highest offset (a retransmission that fills a hole has fresh == 0) -- a registered reader is woken
+    /// (its waker is taken); while nothing is readable the waker stays registered.
+    #[kani::proof]
+    #[kani::unwind(2)]
+    #[kani::stub(qevent::telemetry::macro_support::build_and_emit_event, noop_emit)]
+    #[kani::stub(std::fmt::format, stub_format)]
+    #[kani::stub(crate::recv::rcvbuf::RecvBuf::recv, crate::recv::rcvbuf::verif_rcvbuf_model::stub_recv)]
+    #[kani::stub(crate::recv::rcvbuf::RecvBuf::is_readable, stub_is_readable_fixed)]
+    fn recv_wakes_sleeping_reader_contract() {
+        let readable: bool = kani::any();
+        unsafe { VP_READABLE_AFTER = readable };
+        let mut r = any_recv_w(Some(Waker::noop().clone()));
+        let (f, body) = any_stream_frame(r.stream_id);
+        let res = r.recv(f, body);
+        if let Ok(fresh) = res {
+            assert!(!readable || r.read_waker.is_none(), "C16.recver.recv.readable_data_wakes_the_sleeping_reader");
+            assert!(readable || r.read_waker.is_some(), "C16.recver.recv.sup.waker_stays_registered_while_nothing_is_readable");
+            kani::cover!(readable && fresh == 0, "C16.recver.recv.reach_hole_filled_without_new_highest_offset");
+            kani::cover!(readable && fresh > 0, "C16.recver.recv.reach_readable_fresh");
+        }
+        core::mem::forget(r);
+    }
 }
